@@ -91,7 +91,8 @@ func (d *Document) BlockStringValueContentBytes(ref int) []byte {
 	}
 
 	// find first non-whitespace-only line
-	firstLine := 0
+	// (when there is none, no line is kept: the value is the empty string)
+	firstLine := len(lines)
 	for i, line := range lines {
 		if leadingWhitespaceCount(line) != len(line) {
 			firstLine = i
